@@ -68,6 +68,9 @@ GROUPS = {
         # SessionInfo.__init__ rejects departure <= arrival and estimated_departure <= arrival
         dict(name="SessionInfo_bad_departure", file=IFC, qual="SessionInfo.__init__", expr_path="body[6].test"),
         dict(name="SessionInfo_bad_estimate", file=IFC, qual="SessionInfo.__init__", expr_path="body[8].test"),
+        # derived SessionInfo fields shown to the scheduler
+        dict(name="SessionInfo_remaining_time", file=IFC, qual="SessionInfo.remaining_time"),
+        dict(name="SessionInfo_arrival_offset", file=IFC, qual="SessionInfo.arrival_offset"),
     ]),
 }
 
